@@ -426,7 +426,7 @@ func ruleMaturityAtoms(c *report.Ctx, only map[string]bool) {
 			has := func(pred func(an.Atom) bool) bool { return an.AnyAtom(gs, pred) }
 			isConfs := func(v ssa.Value) bool {
 				d := p.Desc(v)
-				return strings.Contains(d, "param:uint64 - ") && strings.Contains(d, "block.Height") && strings.HasSuffix(d, "+ 1)")
+				return strings.Contains(d, "param:uint64 - ") && (strings.Contains(d, "block.Height") || strings.Contains(d, "BlockMeta.Height")) && strings.HasSuffix(d, "+ 1)")
 			}
 			if !has(func(a an.Atom) bool {
 				if a.Op != token.GEQ || !isConfs(a.X) {
